@@ -1598,9 +1598,11 @@ def huge_cases(G, B, quick):
     return out
 
 
-HUGE_SPECS = [('bipartite', ['glrm', '300', '300', '66000', 'save', 'kthlist']), ('bipartite', ['glrd', '70000', '3', '2']), ('dag', ['tree', '16']),
-              ('dag', ['pyramid', '361', 'save', 'dimacs']), ('simple', ['complete', '400', 'splitedges', '66000']),
-              ('bipartite', ['complete', '257', '257', 'save', 'kthlist']), ('simple', ['complete', '16', '17'])]
+# 'save' in every in-house format of every graph type at these sizes
+HUGE_SPECS = [('bipartite', ['glrm', '300', '300', '66000', 'save', 'kthlist']), ('bipartite', ['glrd', '70000', '3', '2']), ('dag', ['tree', '16', 'save', 'kthlist']),
+              ('digraph', ['pyramid', '361', 'save', 'dimacs']), ('simple', ['complete', '400', 'splitedges', '66000', 'save', 'kthlist']),
+              ('bipartite', ['complete', '257', '257', 'save', 'kthlist']), ('simple', ['complete', '16', '17', 'save', 'dimacs']),
+              ('bipartite', ['glrd', '3', '30000', '20000', 'save', 'matrix'])]
 HUGE_SPECS_THOROUGH = [('simple', ['gnm', '70000', '140000', 'save', 'kthlist']), ('simple', ['gnd', '70000', '3']), ('simple', ['grid', '257', '257']), ('bipartite', ['regular', '66000', '3', '1']), ('bipartite', ['shift', '70000', '70001', '0', '65536', '70000', 'save', 'kthlist']),
                        ('simple', ['torus', '300', '300']), ('simple', ['gnp', '3000', '.02', 'plantclique', '257']), ('digraph', ['path', '140000', 'save', 'kthlist']),
                        ('bipartite', ['glrp', '300', '300', '.8', 'plantbiclique', '257', '257']), ('simple', ['empty', '400', 'addedges', '70000', 'save', 'dimacs']),
